@@ -505,7 +505,12 @@ ErrorCode FlexPath::to_polygons(bool filter, Tag tag, Array<Polygon*>& result) {
                             right_curve.append(r1);
                             const double initial_angle = (-n0).angle();
                             double final_angle = (-n1).angle();
-                            if (final_angle < initial_angle) final_angle += 2 * M_PI;
+                            // With tapered widths the edge can be flagged as outer while the
+                            // normal rotates the other way: keep the sweep below half a turn.
+                            if (final_angle < initial_angle - M_PI)
+                                final_angle += 2 * M_PI;
+                            else if (final_angle > initial_angle + M_PI)
+                                final_angle -= 2 * M_PI;
                             right_curve.arc(half_widths[2 * i], half_widths[2 * i], initial_angle,
                                             final_angle, 0);
                         } else if (join_type == JoinType::Smooth) {
@@ -558,7 +563,10 @@ ErrorCode FlexPath::to_polygons(bool filter, Tag tag, Array<Polygon*>& result) {
                             left_curve.append(l1);
                             const double initial_angle = n0.angle();
                             double final_angle = n1.angle();
-                            if (final_angle > initial_angle) final_angle -= 2 * M_PI;
+                            if (final_angle > initial_angle + M_PI)
+                                final_angle -= 2 * M_PI;
+                            else if (final_angle < initial_angle - M_PI)
+                                final_angle += 2 * M_PI;
                             left_curve.arc(half_widths[2 * i], half_widths[2 * i], initial_angle,
                                            final_angle, 0);
                         } else if (join_type == JoinType::Smooth) {
